@@ -398,7 +398,7 @@ theorem IsAcgt.append {s t : List Char} : IsAcgt (s ++ t) ↔ IsAcgt s ∧ IsAcg
 theorem IsAcgt.of_subset {s t : List Char} (ht : IsAcgt t) (h : ∀ c ∈ s, c ∈ t) : IsAcgt s :=
   fun c hc => ht c (h c hc)
 
-theorem nucIdx_nucChar (j : Nat) : (nucIdx (nucChar j)).isSome = true := by
+theorem nucIdx_nucChar_rep (j : Nat) : (nucIdx (nucChar j)).isSome = true := by
   unfold nucChar
   split
   · decide
@@ -415,17 +415,17 @@ theorem isWalk_isAcgt (a : Acc) : ∀ (s : List Char) (v : Int), isWalk a v s = 
       exact IsAcgt.cons.mpr ⟨(Acc.next_eq_some ht).1, isWalk_isAcgt a s t h⟩
     · cases h
 
-theorem nucValues_ok : ∀ (s : List Char), IsAcgt s → ∃ vs, nucValues s = .ok vs
+theorem nucValues_ok_rep : ∀ (s : List Char), IsAcgt s → ∃ vs, nucValues s = .ok vs
   | [], _ => ⟨[], rfl⟩
   | c :: s, h => by
     obtain ⟨h1, h2⟩ := IsAcgt.cons.mp h
-    obtain ⟨vs, hvs⟩ := nucValues_ok s h2
+    obtain ⟨vs, hvs⟩ := nucValues_ok_rep s h2
     obtain ⟨j, hj⟩ := Option.isSome_iff_exists.mp h1
     exact ⟨j :: vs, by simp [nucValues, hj, hvs, Except.map]⟩
 
 /-- `set_vt` / the check comparison never raise on an ACGT string. -/
-theorem setVt_ok {s : List Char} (h : IsAcgt s) (n : Nat) : ∃ r, setVt s n = .ok r := by
-  obtain ⟨vs, hvs⟩ := nucValues_ok s h
+theorem setVt_ok_rep {s : List Char} (h : IsAcgt s) (n : Nat) : ∃ r, setVt s n = .ok r := by
+  obtain ⟨vs, hvs⟩ := nucValues_ok_rep s h
   simp only [setVt, hvs, Except.map]
   exact ⟨_, rfl⟩
 
@@ -434,7 +434,7 @@ theorem vtMatches_ok {s : List Char} (h : IsAcgt s) (chk : Option (List Char)) :
   cases chk with
   | none => exact ⟨true, rfl⟩
   | some c =>
-    obtain ⟨r, hr⟩ := setVt_ok h c.length
+    obtain ⟨r, hr⟩ := setVt_ok_rep h c.length
     exact ⟨r == c, by simp only [vtMatches, hr, Except.map]⟩
 
 theorem vtMatches_some_true {x c : List Char} (h : vtMatches x (some c) = .ok true) :
@@ -520,5 +520,534 @@ theorem scan_clean (a : Acc) (k : Nat) (s : List Char) (v : Int) (hw : isWalk a 
     exact scan_done a k s 1 _ (by rw [h1]; simp [Scan.init])
   · simp [Scan.init] at h1 h2 h3 h4 h5 h6 h7
     exact ⟨h3, h4, h5, h7, h6, h2, h1⟩
+
+/-! ## Python slices -/
+
+theorem length_pySlice {α} (l : List α) (a b : Int) :
+    (pySlice l a b).length =
+      min (pyNorm l.length b - pyNorm l.length a) (l.length - pyNorm l.length a) := by
+  simp [pySlice, List.length_take, List.length_drop]
+
+theorem mem_of_mem_pySlice {α} {l : List α} {a b : Int} {x : α} (h : x ∈ pySlice l a b) : x ∈ l :=
+  List.mem_of_mem_drop (List.mem_of_mem_take h)
+
+/-- the look-back window has at most `k` entries. -/
+theorem marker_length_le (q : List Int) (k loc : Nat) (hl : loc < q.length) :
+    (pySlice q ((loc : Int) - k) loc).length ≤ k := by
+  rw [length_pySlice]; unfold pyNorm; split <;> split <;> omega
+
+/-- on a queue at least one window long, a look-back window taken before position `k` is empty
+(the negative start wraps past the stop). -/
+theorem marker_eq_nil (q : List Int) (k loc : Nat) (hk : k ≤ q.length) (hl : loc < k) :
+    pySlice q ((loc : Int) - k) loc = [] := by
+  apply List.eq_nil_of_length_eq_zero
+  rw [length_pySlice]; unfold pyNorm; split <;> split <;> omega
+
+theorem chunk_length_le (dna : List Char) (k loc : Nat) (hl : loc < dna.length) :
+    (pySlice dna ((loc : Int) - k + 1) ((loc : Int) + k)).length ≤ 2 * k - 1 := by
+  rw [length_pySlice]; unfold pyNorm; split <;> split <;> omega
+
+theorem chunk_length_ge (dna : List Char) (k loc : Nat) (hl : loc < dna.length) (hk : 1 ≤ k)
+    (hkl : k ≤ loc) : k ≤ (pySlice dna ((loc : Int) - k + 1) ((loc : Int) + k)).length := by
+  rw [length_pySlice]; unfold pyNorm; split <;> split <;> omega
+
+/-! ## what the scan records at a detection -/
+
+/-- shape of the recorded detections: the queue keeps the strand's length, every look-back window
+has at most `k` entries, every chunk at most `2k - 1` symbols, and (on a strand at least one
+window long) a chunk that comes with a non-empty window has at least `k` symbols. -/
+structure ScanDet (k : Nat) (dna : List Char) (st : Scan) : Prop where
+  queue_len : st.queue.length = dna.length
+  splits_ne : st.splits ≠ []
+  markers_le : ∀ m ∈ st.markers, m.length ≤ k
+  chunks_le : ∀ c ∈ st.chunks, c.length ≤ 2 * k - 1
+  safe : k ≤ dna.length → ∀ cm ∈ st.chunks.zip st.markers, cm.2 = [] ∨ k ≤ cm.1.length
+
+theorem ScanDet.init (k : Nat) (dna : List Char) (v : Int) : ScanDet k dna (Scan.init dna v) := by
+  constructor <;> simp [Scan.init]
+
+theorem ScanDet.step (a : Acc) (k : Nat) (dna : List Char) (hk : 1 ≤ k) (st : Scan)
+    (h : ScanDet k dna st) (hlt : st.loc < dna.length) : ScanDet k dna (scanStep a k dna st) := by
+  obtain ⟨h1, h2, h3, h4, h5⟩ := h
+  rcases scanStep_cases a k dna st with ⟨t, -, e⟩ | ⟨-, e⟩ <;> rw [e]
+  · exact ⟨by simp [Scan.advance, h1], by simp [Scan.advance], h3, h4, h5⟩
+  · refine ⟨h1, by simp [Scan.detect], ?_, ?_, ?_⟩
+    · intro m hm
+      simp only [Scan.detect, List.mem_cons] at hm
+      rcases hm with rfl | hm
+      · exact marker_length_le st.queue k st.loc (by omega)
+      · exact h3 m hm
+    · intro c hc
+      simp only [Scan.detect, List.mem_cons] at hc
+      rcases hc with rfl | hc
+      · exact chunk_length_le dna k st.loc hlt
+      · exact h4 c hc
+    · intro hkn cm hcm
+      simp only [Scan.detect, List.zip_cons_cons, List.mem_cons] at hcm
+      rcases hcm with rfl | hcm
+      · by_cases hkl : k ≤ st.loc
+        · right; exact chunk_length_ge dna k st.loc hlt hk hkl
+        · left; exact marker_eq_nil st.queue k st.loc (by omega) (by omega)
+      · exact h5 hkn cm hcm
+
+/-- every split and every chunk of the scan of an ACGT strand is an ACGT string. -/
+structure ScanAcgt (st : Scan) : Prop where
+  splits : ∀ sp ∈ st.splits, IsAcgt sp
+  chunks : ∀ c ∈ st.chunks, IsAcgt c
+
+theorem ScanAcgt.init (dna : List Char) (v : Int) : ScanAcgt (Scan.init dna v) := by
+  constructor <;> simp [Scan.init, IsAcgt]
+
+theorem IsAcgt.pySlice {s : List Char} (h : IsAcgt s) (a b : Int) : IsAcgt (pySlice s a b) :=
+  h.of_subset fun _ hc => mem_of_mem_pySlice hc
+
+theorem ScanAcgt.step (a : Acc) (k : Nat) (dna : List Char) (hs : IsAcgt dna) (st : Scan)
+    (h : ScanAcgt st) (_hlt : st.loc < dna.length) : ScanAcgt (scanStep a k dna st) := by
+  obtain ⟨h1, h2⟩ := h
+  have hhead : IsAcgt (st.splits.headD []) := by
+    cases hsp : st.splits with
+    | nil => simp [IsAcgt]
+    | cons x xs => exact h1 x (by simp [hsp])
+  rcases scanStep_cases a k dna st with ⟨t, ht, e⟩ | ⟨-, e⟩ <;> rw [e]
+  · refine ⟨?_, h2⟩
+    intro sp hsp
+    simp only [Scan.advance, List.mem_cons] at hsp
+    rcases hsp with rfl | hsp
+    · exact IsAcgt.append.mpr ⟨hhead, IsAcgt.cons.mpr ⟨(Acc.next_eq_some ht).1, IsAcgt.nil⟩⟩
+    · exact h1 sp (List.mem_of_mem_tail hsp)
+  · constructor
+    · intro sp hsp
+      simp only [Scan.detect, List.mem_cons] at hsp
+      rcases hsp with rfl | rfl | hsp
+      · exact IsAcgt.cons.mpr ⟨nucIdx_nucChar_rep _, IsAcgt.nil⟩
+      · exact hhead.pySlice _ _
+      · exact h1 sp (List.mem_of_mem_tail hsp)
+    · intro c hc
+      simp only [Scan.detect, List.mem_cons] at hc
+      rcases hc with rfl | hc
+      · exact hs.pySlice _ _
+      · exact h2 c hc
+
+/-! ## `walkCount` and `pathMatching` -/
+
+/-- number of arcs followed before the walk along `s` from `v` breaks. -/
+def walkLen (a : Acc) : Int → List Char → Nat
+  | _, [] => 0
+  | v, c :: s => match a.next v c with
+    | some t => walkLen a t s + 1
+    | none => 0
+
+theorem walkCount_eq (a : Acc) : ∀ (s : List Char) (v : Int) (n : Nat),
+    walkCount a v s n = (isWalk a v s, n + walkLen a v s)
+  | [], _, _ => rfl
+  | c :: s, v, n => by
+    simp only [walkCount, isWalk, walkLen]
+    cases a.next v c with
+    | none => rfl
+    | some t => simp only [walkCount_eq a s t (n + 1)]; congr 1; omega
+
+theorem walkLen_le (a : Acc) : ∀ (s : List Char) (v : Int), walkLen a v s ≤ s.length
+  | [], _ => Nat.le_refl _
+  | c :: s, v => by
+    simp only [walkLen]
+    cases a.next v c with
+    | none => simp
+    | some t => have := walkLen_le a s t; simp; omega
+
+theorem walkLen_of_isWalk (a : Acc) : ∀ (s : List Char) (v : Int), isWalk a v s = true →
+    walkLen a v s = s.length
+  | [], _, _ => rfl
+  | c :: s, v, h => by
+    simp only [walkLen, isWalk] at h ⊢
+    cases hn : a.next v c with
+    | none => simp [hn] at h
+    | some t => simp only [hn] at h; simp [walkLen_of_isWalk a s t h]
+
+/-- the accumulate-if-reliable folds of `pathMatching`, in closed form. -/
+theorem foldl_collect {α β} (w : α → Bool × Nat) (g : α → β) : ∀ (xs : List α) (init : List β × Nat),
+    xs.foldl (fun acc x => (if (w x).1 then acc.1 ++ [g x] else acc.1, acc.2 + (w x).2)) init =
+      (init.1 ++ (xs.filter fun x => (w x).1).map g, init.2 + (xs.map fun x => (w x).2).sum)
+  | [], init => by simp
+  | x :: xs, init => by
+    rw [List.foldl_cons, foldl_collect w g xs]
+    cases h : (w x).1 <;> simp [h, Nat.add_assoc]
+
+/-- the substitution records of `pathMatching`. -/
+def pmSubs (a : Acc) (chunk : List Char) (prev : Int) (occ : Nat) (original : Char) : List Char :=
+  (((a.live prev).map nucChar).filter (· ≠ original)).filter fun x =>
+    isWalk a (a.ent prev ((nucIdx x).getD 0)) (chunk.drop (occ + 1))
+
+/-- the insertion records of `pathMatching`. -/
+def pmIns (a : Acc) (chunk : List Char) (prev : Int) (occ : Nat) : List Char :=
+  ((a.live prev).map nucChar).filter fun x =>
+    isWalk a (a.ent prev ((nucIdx x).getD 0)) (chunk.drop occ)
+
+/-- look-ups made by the substitution trials. -/
+def pmSubCost (a : Acc) (chunk : List Char) (prev : Int) (occ : Nat) (original : Char) : Nat :=
+  ((((a.live prev).map nucChar).filter (· ≠ original)).map fun x =>
+    walkLen a (a.ent prev ((nucIdx x).getD 0)) (chunk.drop (occ + 1))).sum
+
+/-- look-ups made by the insertion and deletion trials. -/
+def pmIndelCost (a : Acc) (chunk : List Char) (prev : Int) (occ : Nat) : Nat :=
+  (((a.live prev).map nucChar).map fun x =>
+    walkLen a (a.ent prev ((nucIdx x).getD 0)) (chunk.drop occ)).sum +
+  walkLen a prev (chunk.drop (occ + 1))
+
+/-- `pathMatching` in closed form: substitutions, then (with indels) insertions and the
+deletion, each kept when the rest of the chunk is a walk. -/
+theorem pathMatching_eq (a : Acc) (chunk : List Char) (prev : Int) (occ : Nat) (hasIndel : Bool)
+    (original : Char) (h : chunk[occ]? = some original) :
+    pathMatching a chunk prev occ hasIndel = .ok
+      ((pmSubs a chunk prev occ original).map (fun x => ⟨.S, occ, x, chunk.set occ x⟩) ++
+        (if hasIndel then
+          (pmIns a chunk prev occ).map (fun x => ⟨.I, occ, x, chunk.take occ ++ [x] ++ chunk.drop occ⟩) ++
+          (if isWalk a prev (chunk.drop (occ + 1)) then
+            [⟨.D, occ, original, chunk.take occ ++ chunk.drop (occ + 1)⟩] else [])
+        else []),
+       pmSubCost a chunk prev occ original + if hasIndel then pmIndelCost a chunk prev occ else 0) := by
+  unfold pathMatching
+  simp only [h]
+  have e1 := foldl_collect
+    (fun x => walkCount a (a.ent prev ((nucIdx x).getD 0)) (chunk.drop (occ + 1)) 0)
+    (fun x => (⟨.S, occ, x, chunk.set occ x⟩ : RepairInfo))
+    (((a.live prev).map nucChar).filter (· ≠ original)) ([], 0)
+  have e2 := fun init => foldl_collect
+    (fun x => walkCount a (a.ent prev ((nucIdx x).getD 0)) (chunk.drop occ) 0)
+    (fun x => (⟨.I, occ, x, chunk.take occ ++ [x] ++ chunk.drop occ⟩ : RepairInfo))
+    ((a.live prev).map nucChar) init
+  simp only [walkCount_eq, Nat.zero_add, List.nil_append] at e1 e2
+  cases hasIndel with
+  | false =>
+    simp only [walkCount_eq, Nat.zero_add, Bool.not_false, if_true]
+    rw [e1]
+    simp [pmSubs, pmSubCost]
+  | true =>
+    simp only [Bool.not_true, Bool.false_eq_true, if_false, if_true]
+    simp only [walkCount_eq, Nat.zero_add]
+    rw [e1, e2]
+    simp only [pmSubs, pmSubCost, pmIns, pmIndelCost]
+    cases isWalk a prev (chunk.drop (occ + 1)) <;> simp [Nat.add_assoc]
+
+theorem pathMatching_total (a : Acc) (chunk : List Char) (prev : Int) (occ : Nat) (hasIndel : Bool)
+    (h : occ < chunk.length) : ∃ r, pathMatching a chunk prev occ hasIndel = .ok r :=
+  ⟨_, pathMatching_eq a chunk prev occ hasIndel chunk[occ] (List.getElem?_eq_getElem h)⟩
+
+theorem pathMatching_ok_lt {a : Acc} {chunk : List Char} {prev : Int} {occ : Nat} {hasIndel : Bool}
+    {r : List RepairInfo × Nat} (h : pathMatching a chunk prev occ hasIndel = .ok r) :
+    occ < chunk.length := by
+  apply Nat.lt_of_not_le; intro hge
+  simp [pathMatching, List.getElem?_eq_none hge] at h
+
+theorem live_length_le (a : Acc) (v : Int) : (a.live v).length ≤ 4 := by
+  unfold Acc.live
+  exact Nat.le_trans (List.length_filter_le _ _) (by simp)
+
+theorem sum_map_le {α} (f : α → Nat) (B : Nat) : ∀ (l : List α), (∀ x ∈ l, f x ≤ B) →
+    (l.map f).sum ≤ l.length * B
+  | [], _ => by simp
+  | x :: xs, h => by
+    have h1 := h x List.mem_cons_self
+    have h2 := sum_map_le f B xs (fun y hy => h y (List.mem_cons_of_mem _ hy))
+    simp only [List.map_cons, List.sum_cons, List.length_cons, Nat.add_mul]
+    omega
+
+/-- `pathMatching` makes at most `9 · |chunk|` look-ups (four substitution, four insertion and one
+deletion trial, each along at most the chunk). -/
+theorem pathMatching_cost_le {a : Acc} {chunk : List Char} {prev : Int} {occ : Nat} {hasIndel : Bool}
+    {r : List RepairInfo × Nat} (h : pathMatching a chunk prev occ hasIndel = .ok r) :
+    r.2 ≤ 9 * chunk.length := by
+  have hlt := pathMatching_ok_lt h
+  rw [pathMatching_eq a chunk prev occ hasIndel chunk[occ] (List.getElem?_eq_getElem hlt)] at h
+  cases h
+  have hu : ((a.live prev).map nucChar).length ≤ 4 := by simpa using live_length_le a prev
+  have hs : pmSubCost a chunk prev occ chunk[occ] ≤ 4 * chunk.length := by
+    unfold pmSubCost
+    refine Nat.le_trans (sum_map_le _ chunk.length _ fun x _ => ?_) ?_
+    · exact Nat.le_trans (walkLen_le a _ _) (by simp)
+    · exact Nat.mul_le_mul_right _ (Nat.le_trans (List.length_filter_le _ _) hu)
+  have hi : pmIndelCost a chunk prev occ ≤ 4 * chunk.length + chunk.length := by
+    unfold pmIndelCost
+    refine Nat.add_le_add (Nat.le_trans (sum_map_le _ chunk.length _ fun x _ => ?_) ?_) ?_
+    · exact Nat.le_trans (walkLen_le a _ _) (by simp)
+    · exact Nat.mul_le_mul_right _ hu
+    · exact Nat.le_trans (walkLen_le a _ _) (by simp)
+  simp only
+  split <;> omega
+
+theorem IsAcgt.set {s : List Char} (h : IsAcgt s) (i : Nat) {c : Char}
+    (hc : (nucIdx c).isSome = true) : IsAcgt (s.set i c) := by
+  intro x hx
+  rcases List.mem_or_eq_of_mem_set hx with hx | rfl
+  · exact h x hx
+  · exact hc
+
+theorem IsAcgt.take {s : List Char} (h : IsAcgt s) (i : Nat) : IsAcgt (s.take i) :=
+  h.of_subset fun _ hc => List.mem_of_mem_take hc
+
+theorem IsAcgt.drop {s : List Char} (h : IsAcgt s) (i : Nat) : IsAcgt (s.drop i) :=
+  h.of_subset fun _ hc => List.mem_of_mem_drop hc
+
+/-- every fragment proposed by `pathMatching` on an ACGT chunk is an ACGT string. -/
+theorem pathMatching_acgt {a : Acc} {chunk : List Char} {prev : Int} {occ : Nat} {hasIndel : Bool}
+    {r : List RepairInfo × Nat} (hc : IsAcgt chunk)
+    (h : pathMatching a chunk prev occ hasIndel = .ok r) : ∀ info ∈ r.1, IsAcgt info.fragment := by
+  have hlt := pathMatching_ok_lt h
+  rw [pathMatching_eq a chunk prev occ hasIndel chunk[occ] (List.getElem?_eq_getElem hlt)] at h
+  cases h
+  have hused : ∀ x ∈ (a.live prev).map nucChar, (nucIdx x).isSome = true := by
+    intro x hx
+    obtain ⟨j, -, rfl⟩ := List.mem_map.mp hx
+    exact nucIdx_nucChar_rep j
+  intro info hinfo
+  simp only [List.mem_append, List.mem_map] at hinfo
+  rcases hinfo with ⟨x, hx, rfl⟩ | hinfo
+  · exact hc.set occ (hused x (List.mem_filter.mp (List.mem_filter.mp hx).1).1)
+  · split at hinfo
+    · simp only [List.mem_append, List.mem_map] at hinfo
+      rcases hinfo with ⟨x, hx, rfl⟩ | hinfo
+      · exact IsAcgt.append.mpr ⟨IsAcgt.append.mpr ⟨hc.take _,
+          IsAcgt.cons.mpr ⟨hused x (List.mem_filter.mp hx).1, IsAcgt.nil⟩⟩, hc.drop _⟩
+      · split at hinfo
+        · simp at hinfo; subst hinfo
+          exact IsAcgt.append.mpr ⟨hc.take _, hc.drop _⟩
+        · simp at hinfo
+    · simp at hinfo
+
+/-! ## `collectFragments` -/
+
+/-- the set update of `collectFragments` for the records of one look-back position. -/
+def addFragments (dna : List Char) (set : List (List Char)) (infos : List RepairInfo) :
+    List (List Char) :=
+  infos.foldl (fun (set : List (List Char)) info =>
+    if set.contains dna then set
+    else if set.contains info.fragment then set else set ++ [info.fragment]) set
+
+/-- one look-back position of `collectFragments`. -/
+def collectStep (a : Acc) (k : Nat) (dna chunk : List Char) (hasIndel : Bool)
+    (acc : List (List Char) × Nat) (p : Int × Nat) : R (List (List Char) × Nat) :=
+  (pathMatching a chunk p.1 (k - p.2 - 1) hasIndel).bind fun r =>
+    .ok (addFragments dna acc.1 r.1, acc.2 + r.2)
+
+theorem collectFragments_eq (a : Acc) (k : Nat) (dna chunk : List Char) (marker : List Int)
+    (hasIndel : Bool) :
+    collectFragments a k dna chunk marker hasIndel =
+      marker.reverse.zipIdx.foldlM (collectStep a k dna chunk hasIndel) ([], 0) := rfl
+
+theorem mem_addFragments (dna : List Char) : ∀ (infos : List RepairInfo) (set : List (List Char))
+    (f : List Char), f ∈ addFragments dna set infos → f ∈ set ∨ ∃ info ∈ infos, f = info.fragment
+  | [], set, f, h => Or.inl h
+  | info :: infos, set, f, h => by
+    simp only [addFragments, List.foldl_cons] at h
+    have := mem_addFragments dna infos _ f h
+    rcases this with h1 | ⟨i, hi, e⟩
+    · split at h1
+      · exact Or.inl h1
+      · split at h1
+        · exact Or.inl h1
+        · rcases List.mem_append.mp h1 with h1 | h1
+          · exact Or.inl h1
+          · simp at h1; exact Or.inr ⟨info, List.mem_cons_self, h1⟩
+    · exact Or.inr ⟨i, List.mem_cons_of_mem _ hi, e⟩
+
+/-- a successful `foldlM` whose steps each add at most `B` to a counter. -/
+theorem foldlM_count_le {α β} (f : β → α → R β) (cnt : β → Nat) (B : Nat) :
+    ∀ (l : List α) (b r : β), (∀ acc x r, x ∈ l → f acc x = .ok r → cnt r ≤ cnt acc + B) →
+      l.foldlM f b = .ok r → cnt r ≤ cnt b + l.length * B := by
+  intro l
+  induction l with
+  | nil => intro b r _ h; simp [pure, Except.pure] at h; subst h; simp
+  | cons x xs ih =>
+    intro b r hstep h
+    rw [List.foldlM_cons] at h
+    obtain ⟨y, hy, h⟩ := R.bind_eq_ok _ _ _ h
+    have h1 := hstep b x y List.mem_cons_self hy
+    have h2 := ih y r (fun acc x' r' hx' => hstep acc x' r' (List.mem_cons_of_mem _ hx')) h
+    simp only [List.length_cons, Nat.add_mul]
+    omega
+
+/-- `collectFragments` makes at most `9 · |chunk|` look-ups per look-back position. -/
+theorem collectFragments_cost_le {a : Acc} {k : Nat} {dna chunk : List Char} {marker : List Int}
+    {hasIndel : Bool} {r : List (List Char) × Nat}
+    (h : collectFragments a k dna chunk marker hasIndel = .ok r) :
+    r.2 ≤ marker.length * (9 * chunk.length) := by
+  rw [collectFragments_eq] at h
+  have := foldlM_count_le (collectStep a k dna chunk hasIndel) (·.2) (9 * chunk.length) _ _ _
+    (fun acc x r' _ hr => by
+      obtain ⟨pm, hpm, e⟩ := R.bind_ok _ _ _ hr
+      cases e
+      have := pathMatching_cost_le hpm
+      simp only; omega) h
+  simpa using this
+
+/-- `collectFragments` cannot raise when the chunk reaches every look-back position, and on an
+ACGT chunk it returns ACGT fragments. -/
+theorem collectFragments_total (a : Acc) (k : Nat) (dna chunk : List Char) (marker : List Int)
+    (hasIndel : Bool) (hk : 1 ≤ k) (hc : IsAcgt chunk) (hm : marker = [] ∨ k ≤ chunk.length) :
+    ∃ r, collectFragments a k dna chunk marker hasIndel = .ok r ∧ ∀ f ∈ r.1, IsAcgt f := by
+  rw [collectFragments_eq]
+  refine foldlM_total (collectStep a k dna chunk hasIndel) (fun acc => ∀ f ∈ acc.1, IsAcgt f) _ _
+    ?_ (by simp)
+  intro acc p hp hacc
+  obtain ⟨prev, idx⟩ := p
+  have hidx := (List.mem_zipIdx hp).2.1
+  simp only [List.length_reverse, Nat.zero_add] at hidx
+  have hkc : k ≤ chunk.length := by
+    rcases hm with rfl | hm
+    · simp at hidx
+    · exact hm
+  obtain ⟨pm, hpm⟩ := pathMatching_total a chunk prev (k - idx - 1) hasIndel (by omega)
+  refine ⟨(addFragments dna acc.1 pm.1, acc.2 + pm.2), by simp only [collectStep, hpm, Except.bind], ?_⟩
+  intro f hf
+  rcases mem_addFragments dna _ _ f hf with hf | ⟨info, hinfo, rfl⟩
+  · exact hacc f hf
+  · exact pathMatching_acgt hc hpm info hinfo
+
+/-! ## the fragment fold, the product and the candidates -/
+
+/-- one detection of the fragment fold. -/
+def fragStep (a : Acc) (k : Nat) (dna : List Char) (hasIndel : Bool)
+    (acc : List (List (List Char)) × Nat) (cm : List Char × List Int) :
+    R (List (List (List Char)) × Nat) :=
+  (collectFragments a k dna cm.1 cm.2 hasIndel).bind fun r => .ok (acc.1 ++ [r.1], acc.2 + r.2)
+
+theorem fragFold_eq (a : Acc) (k : Nat) (dna : List Char) (hasIndel : Bool) (st : Scan) :
+    fragFold a k dna hasIndel st =
+      (st.chunks.reverse.zip st.markers.reverse).foldlM (fragStep a k dna hasIndel)
+        ([], st.visited) := rfl
+
+theorem zip_reverse_eq {α β} : ∀ (l₁ : List α) (l₂ : List β), l₁.length = l₂.length →
+    l₁.reverse.zip l₂.reverse = (l₁.zip l₂).reverse
+  | [], [], _ => rfl
+  | [], _ :: _, h => by simp at h
+  | _ :: _, [], h => by simp at h
+  | x :: xs, y :: ys, h => by
+    simp only [List.length_cons, Nat.add_right_cancel_iff] at h
+    rw [List.reverse_cons, List.reverse_cons, List.zip_append (by simpa using h),
+      zip_reverse_eq xs ys h]
+    simp
+
+/-- the fragment fold makes at most `k · 18k` look-ups per detection. -/
+theorem fragFold_cost_le {a : Acc} {k : Nat} {dna : List Char} {hasIndel : Bool} {st : Scan}
+    {fv : List (List (List Char)) × Nat} (hd : ScanDet k dna st) (hc : ScanCount k dna st)
+    (h : fragFold a k dna hasIndel st = .ok fv) :
+    fv.2 ≤ st.visited + st.detected * (k * (18 * k)) := by
+  rw [fragFold_eq] at h
+  have := foldlM_count_le (fragStep a k dna hasIndel) (·.2) (k * (18 * k)) _ _ _
+    (fun acc cm r' hcm hr => by
+      obtain ⟨cf, hcf, e⟩ := R.bind_ok _ _ _ hr
+      cases e
+      have h1 := collectFragments_cost_le hcf
+      obtain ⟨c, m⟩ := cm
+      obtain ⟨hc', hm'⟩ := List.of_mem_zip hcm
+      have h2 := hd.chunks_le c (List.mem_reverse.mp hc')
+      have h3 := hd.markers_le m (List.mem_reverse.mp hm')
+      have h4 : m.length * (9 * c.length) ≤ k * (18 * k) :=
+        Nat.mul_le_mul h3 (by omega)
+      simp only at h1 ⊢; omega) h
+  have hl : (st.chunks.reverse.zip st.markers.reverse).length = st.detected := by
+    simp [List.length_zip, hc.chunks_len, hc.markers_len]
+  rw [hl] at this
+  exact this
+
+/-- the fragment fold cannot raise on the scan of an ACGT strand at least one window long, and
+all its fragments are ACGT strings. -/
+theorem fragFold_total (a : Acc) (k : Nat) (dna : List Char) (hasIndel : Bool) (st : Scan)
+    (hk : 1 ≤ k) (hlen : k ≤ dna.length) (hd : ScanDet k dna st) (hc : ScanCount k dna st)
+    (ha : ScanAcgt st) :
+    ∃ fv, fragFold a k dna hasIndel st = .ok fv ∧ ∀ fs ∈ fv.1, ∀ f ∈ fs, IsAcgt f := by
+  rw [fragFold_eq, zip_reverse_eq _ _ (by rw [hc.chunks_len, hc.markers_len])]
+  refine foldlM_total (fragStep a k dna hasIndel) (fun acc => ∀ fs ∈ acc.1, ∀ f ∈ fs, IsAcgt f)
+    _ _ ?_ (by simp)
+  intro acc cm hcm hacc
+  rw [List.mem_reverse] at hcm
+  obtain ⟨c, m⟩ := cm
+  have hc' := (List.of_mem_zip hcm).1
+  obtain ⟨r, hr, hacgt⟩ := collectFragments_total a k dna c m hasIndel hk (ha.chunks c hc')
+    (hd.safe hlen (c, m) hcm)
+  refine ⟨(acc.1 ++ [r.1], acc.2 + r.2), by simp only [fragStep, hr, Except.bind], ?_⟩
+  intro fs hfs
+  rcases List.mem_append.mp hfs with hfs | hfs
+  · exact hacc fs hfs
+  · simp at hfs; subst hfs; exact hacgt
+
+theorem product_mem_zip {α} : ∀ (fss : List (List α)) (frs : List α), frs ∈ product fss →
+    frs.length = fss.length ∧ ∀ p ∈ frs.zip fss, p.1 ∈ p.2
+  | [], frs, h => by simp [product] at h; subst h; simp
+  | fs :: fss, frs, h => by
+    simp only [product, List.mem_flatMap, List.mem_map] at h
+    obtain ⟨f, hf, rest, hrest, rfl⟩ := h
+    obtain ⟨h1, h2⟩ := product_mem_zip fss rest hrest
+    refine ⟨by simp [h1], ?_⟩
+    intro p hp
+    simp only [List.zip_cons_cons, List.mem_cons] at hp
+    rcases hp with rfl | hp
+    · exact hf
+    · exact h2 p hp
+
+theorem product_mem {α} : ∀ (fss : List (List α)) (frs : List α), frs ∈ product fss →
+    ∀ f ∈ frs, ∃ fs ∈ fss, f ∈ fs
+  | [], frs, h => by simp [product] at h; subst h; simp
+  | fs :: fss, frs, h => by
+    simp only [product, List.mem_flatMap, List.mem_map] at h
+    obtain ⟨f, hf, rest, hrest, rfl⟩ := h
+    intro g hg
+    rcases List.mem_cons.mp hg with rfl | hg
+    · exact ⟨fs, List.mem_cons_self, hf⟩
+    · obtain ⟨fs', h1, h2⟩ := product_mem fss rest hrest g hg
+      exact ⟨fs', List.mem_cons_of_mem _ h1, h2⟩
+
+theorem getLastD_mem {α} : ∀ (l : List α) (d : α), l.getLastD d = d ∨ l.getLastD d ∈ l
+  | [], d => Or.inl rfl
+  | x :: xs, d => by
+    rw [List.getLastD_cons]
+    rcases getLastD_mem xs x with h | h
+    · rw [h]; exact Or.inr List.mem_cons_self
+    · exact Or.inr (List.mem_cons_of_mem _ h)
+
+theorem candOf_acgt {splits frs : List (List Char)} (hs : ∀ sp ∈ splits, IsAcgt sp)
+    (hf : ∀ f ∈ frs, IsAcgt f) : IsAcgt (candOf splits frs) := by
+  unfold candOf
+  refine IsAcgt.append.mpr ⟨?_, ?_⟩
+  · have : ∀ (l : List (List Char × List Char)) (acc : List Char), IsAcgt acc →
+        (∀ p ∈ l, IsAcgt p.1 ∧ IsAcgt p.2) →
+        IsAcgt (l.foldl (fun s (p : List Char × List Char) => s ++ p.1 ++ p.2) acc) := by
+      intro l
+      induction l with
+      | nil => intro acc h _; exact h
+      | cons p ps ih =>
+        intro acc h hp
+        rw [List.foldl_cons]
+        have := hp p List.mem_cons_self
+        exact ih _ (IsAcgt.append.mpr ⟨IsAcgt.append.mpr ⟨h, this.1⟩, this.2⟩)
+          (fun q hq => hp q (List.mem_cons_of_mem _ hq))
+    refine this _ _ IsAcgt.nil ?_
+    rintro ⟨sp, f⟩ hp
+    obtain ⟨h1, h2⟩ := List.of_mem_zip hp
+    exact ⟨hs sp h1, hf f h2⟩
+  · rcases getLastD_mem splits [] with h | h
+    · rw [h]; exact IsAcgt.nil
+    · exact hs _ h
+
+/-- the output stage cannot raise when the strand, the splits and the fragments are ACGT. -/
+theorem repairTail_total (dna : List Char) (chk : Option (List Char)) (heap : Nat) (st : Scan)
+    (fv : List (List (List Char)) × Nat) (hs : IsAcgt dna) (hsp : ∀ sp ∈ st.splits, IsAcgt sp)
+    (hfv : ∀ fs ∈ fv.1, ∀ f ∈ fs, IsAcgt f) : ∃ res, repairTail dna chk heap st fv = .ok res := by
+  unfold repairTail
+  split
+  · obtain ⟨b, hb⟩ := vtMatches_ok hs chk
+    rw [hb]
+    cases b <;> exact ⟨_, rfl⟩
+  · obtain ⟨checked, hch⟩ := mapM_total (fun c => (vtMatches c chk).map fun b => (c, b))
+      ((product fv.1).map (candOf st.splits.reverse)) (by
+        intro c hc
+        obtain ⟨frs, hfrs, rfl⟩ := List.mem_map.mp hc
+        have : IsAcgt (candOf st.splits.reverse frs) :=
+          candOf_acgt (fun sp h => hsp sp (List.mem_reverse.mp h)) (fun f hf => by
+            obtain ⟨fs, h1, h2⟩ := product_mem _ _ hfrs f hf
+            exact hfv fs h1 f h2)
+        obtain ⟨b, hb⟩ := vtMatches_ok this chk
+        exact ⟨(_, b), by rw [hb]; rfl⟩)
+    rw [hch]
+    exact ⟨_, rfl⟩
 
 end Dsw
